@@ -545,6 +545,8 @@ fn main() {
                 Job::Rand(r) => Some(run_random(r, seed, &fault)),
                 Job::Stale(r, alpha) => run_stale(r, seed, alpha),
             };
+            // stale-request executions are started first (they sleep) but written last
+            let n = if run.as_ref().map(|r| r.lines[0].contains("\"src\":\"stale\"")).unwrap_or(false) { n + 1_000_000_000 } else { n };
             match run {
                 Some(run) => results.lock().unwrap().push((n, run.lines, run.events, run.sends, run.terminal, run.c.sub.clone())),
                 None => *discarded.lock().unwrap() += 1,
